@@ -110,7 +110,7 @@ void HttpServer::serve(Socket client)
 					{
 						Array<String> parts = range.substr(6).split('-');
 						int begin = parts[0];
-						int end = parts[1];
+						int end = parts.length() > 1 ? (int)parts[1] : 0;
 						response.setCode(206);
 						response.setHeader("Content-Range", "+");
 						response.putFile(file.path(), begin, end);
